@@ -53,6 +53,10 @@ fn gen_packages(rng: &mut Rng) -> Vec<Pkg> {
             if pkgs[i].external && pkgs[j].external && rng.chance(1, 2) {
                 pkgs[i].deps.push(j);
             }
+            // a path dependency of a path dependency
+            if !pkgs[i].external && !pkgs[j].external && rng.chance(1, 3) {
+                pkgs[i].deps.push(j);
+            }
         }
     }
     // build/packages only ever holds what the root project needs, directly or transitively
@@ -238,8 +242,17 @@ pub fn gen_session(seed: u64, run: u64, _thorough: bool) -> Session {
         }
     }
     order.push((loose.clone(), "pub fn lonely(x: Int) {\n  x\n}\n".into()));
+    // opening a gleam.toml (unchanged) makes the loader rebuild the package graph
+    if rng.chance(1, 3) {
+        let pi = rng.below(pkgs.len());
+        if !(deps_late && pkgs[pi].external) {
+            order.push((format!("{}/gleam.toml", pkgs[pi].dir), toml_of(&pkgs, pi)));
+        }
+    }
     rng.shuffle(&mut order);
-    let order_kind = if order[0].0.starts_with("app/src") {
+    let order_kind = if order[0].0.ends_with("gleam.toml") {
+        "open_order.gleam_toml_first"
+    } else if order[0].0.starts_with("app/src") {
         "open_order.root_first"
     } else if order[0].0.starts_with("loose") {
         "open_order.free_standing_first"
